@@ -2,6 +2,8 @@ import PacketVerif.Model.DnsName
 import PacketVerif.Model.DnsRR
 import PacketVerif.Model.DnsMsg
 import PacketVerif.Model.Naming
+import PacketVerif.Model.DnsQuery
+import PacketVerif.Model.Views
 import PacketVerif.Spec.DnsWire
 namespace PV.Drv.Dns
 open PV PV.Model
@@ -14,6 +16,10 @@ open PV PV.Model
     dns.process <payload>+               → per-call results and the final table
     dns.encname <name> <datalen> <off>   → ok <data> <off> | panic
     dns.encquery <id> <flags> <name> <t> → ok <msg> | panic
+    dns.rt <id> <flags> <name> <t>       → encodeName + EncodeDNSQuery on the dotted text <name>, then the DNS view
+                                           getters and DecodeQuestion on the message:
+                                           ok <msg> view=<13 getters> q=<outcome (name type class end)>
+                                              | spec=<id>,<flags>,<qd>,<an>,<ns>,<ar>,<name>:<type>:<class>:<end>   (reference decoder)
     merge <entry> <entry>                → <entry> <bool>
     hostupd <src> <dirty> <5 host entries> <5 mac entries> <entry> → <5 host> <5 mac> <dirty>
     mdns <payload> | nbns <payload> | nbns.names <b> | nbns.decode <b> | ssdp.cc <value> | mdns.txt <s1,s2,…>
@@ -177,6 +183,18 @@ def handle (cmd : String) (args : List String) : Option String :=
   | "dns.encquery", [i, f, n, t] => do
     let id ← parseNat? i; let fl ← parseNat? f; let nm ← fromHex n; let qt ← parseNat? t
     some (outcomeStr toHex (encodeDNSQuery id fl nm qt))
+  | "dns.rt", [i, f, n, t] => do
+    let id ← parseNat? i; let fl ← parseNat? f; let nm ← fromHex n; let qt ← parseNat? t
+    match buildQuery id fl nm qt with
+    | .ok m =>
+      let view := joinWith "," (vDNS.fixed.map (fun (g : String × G) => outcomeStr Val.toString (g.2.eval m) |>.replace " " "_"))
+      let q := outcomeStr (fun (x : Question × Nat) => s!"{toHex x.1.name} {x.1.qtype} {x.1.qclass} {x.2}") (decodeQuestion m 12)
+      let u (k : Nat) : String := match Spec.u16At m k with | some v => toString v | none => "-"
+      let sq := match Spec.questionAt? m 12 with
+        | some (sq, e) => s!"{toHex sq.name}:{sq.qtype}:{sq.qclass}:{e}"
+        | none => "none"
+      some s!"ok {toHex m} view={view} q={q} | spec={u 0},{u 2},{u 4},{u 6},{u 8},{u 10},{sq}"
+    | r => some (outcomeStr toHex r)
   | "merge", [a, b] => do
     let e ← parseNameEntry a; let n ← parseNameEntry b
     let (r, m) := e.merge n
